@@ -46,6 +46,10 @@ type C03Plan struct {
 	// NoChain: the owners' key stores hold bare keys (no certificate chain)
 	// although vouchers are extended to the owners' certificate chains.
 	NoChain bool `json:"owner_store_without_chain,omitempty"`
+	// RvShape varies who supplies rendezvous directives: 0 manufacturer and
+	// owners both do, 1 the owners replace them by an empty list, 2 only the
+	// owners supply any, 3 nobody does.
+	RvShape int `json:"rv_shape,omitempty"`
 }
 
 type c03 struct {
@@ -107,6 +111,13 @@ func (p *c03) Prepare(t *testing.T, tier string, seed uint64) {
 						pl := next(k)
 						pl.Reuse, pl.Bypass, pl.Rounds, pl.Sql = reuse, bypass, rounds, i%5 == 0
 						plans = append(plans, pl)
+						if !reuse && rounds == 3 {
+							for shape := 1; shape <= 3; shape++ {
+								rs := next(k)
+								rs.Bypass, rs.Rounds, rs.RvShape, rs.Sql = bypass, rounds, shape, (i+shape)%4 == 0
+								plans = append(plans, rs)
+							}
+						}
 						if e == protocol.X5ChainKeyEnc && !pl.Sql {
 							nc := next(k)
 							nc.Reuse, nc.Bypass, nc.Rounds, nc.NoChain = reuse, bypass, rounds, true
@@ -353,6 +364,14 @@ func (p *c03) Exec(env *Env, plan any) {
 		s.Nodes[n].RvInfo = [][]protocol.RvInstruction{{{Variable: protocol.RVDns, Value: mustCBOR("rv.example")}, {Variable: protocol.RVDevPort, Value: mustCBOR(uint16(8041))}}}
 	}
 	s.Nodes["mfg"].RvInfo = [][]protocol.RvInstruction{{{Variable: protocol.RVDns, Value: mustCBOR("first-rv.example")}}}
+	if pl.RvShape == 1 || pl.RvShape == 3 {
+		for _, n := range []string{"owner1", "owner2", "owner3"} {
+			s.Nodes[n].RvInfo = nil
+		}
+	}
+	if pl.RvShape == 2 || pl.RvShape == 3 {
+		s.Nodes["mfg"].RvInfo = nil
+	}
 	rec := &ModRecorder{}
 	for _, n := range []string{"owner1", "owner2", "owner3"} {
 		s.Nodes[n].Mods = &ModSM{Factory: PingFactory(s.Nodes[n], rec, [][]byte{[]byte("hello-device")})}
